@@ -167,6 +167,7 @@ fn rx_flush_two_in_order() {
     assert!(urx.shared.locked.lock().reader_waker.is_none(), "C02: reader waker consumed by the wake");
     std::mem::forget(urx);
     std::mem::forget(rh);
+    kani::cover!(true, "end of harness reachable (assumptions satisfiable, no unconditional failure)");
 }
 }
 
@@ -192,6 +193,7 @@ fn rx_flush_partial_fit() {
     assert!(slot_is(&urx.shared.locked.lock().dispatcher_waker, W_DISP), "C02: dispatcher asks to be woken when the reader frees space");
     std::mem::forget(urx);
     std::mem::forget(rh);
+    kani::cover!(true, "end of harness reachable (assumptions satisfiable, no unconditional failure)");
 }
 }
 
@@ -215,6 +217,7 @@ fn rx_flush_reader_dropped() {
     assert!(urx.remaining_rx_window() == 0, "C04: a dropped reader advertises a zero window");
     std::mem::forget(urx);
     std::mem::forget(rh);
+    kani::cover!(true, "end of harness reachable (assumptions satisfiable, no unconditional failure)");
 }
 }
 
@@ -237,6 +240,7 @@ fn rx_flush_keeps_out_of_order() {
     assert!(window_honest(&urx), "C04: advertised window accounts for bytes held out of order");
     std::mem::forget(urx);
     std::mem::forget(rh);
+    kani::cover!(true, "end of harness reachable (assumptions satisfiable, no unconditional failure)");
 }
 }
 
@@ -258,6 +262,7 @@ fn rx_flush_data_then_eof() {
     assert!(ooq_scalars(&urx) == (0, 0, 0), "C03: nothing left behind");
     std::mem::forget(urx);
     std::mem::forget(rh);
+    kani::cover!(true, "end of harness reachable (assumptions satisfiable, no unconditional failure)");
 }
 }
 
@@ -286,6 +291,7 @@ fn rx_add_in_order_no_flush() {
     assert!(window_honest(&urx), "C04: advertised window never exceeds the free space");
     std::mem::forget(urx);
     std::mem::forget(rh);
+    kani::cover!(true, "end of harness reachable (assumptions satisfiable, no unconditional failure)");
 }
 }
 
@@ -310,6 +316,7 @@ fn rx_add_completes_queue_and_flushes() {
     assert!(window_honest(&urx), "C04: advertised window never exceeds the free space");
     std::mem::forget(urx);
     std::mem::forget(rh);
+    kani::cover!(true, "end of harness reachable (assumptions satisfiable, no unconditional failure)");
 }
 }
 
@@ -349,6 +356,7 @@ fn rx_read_two_payloads_then_eof() {
     assert!(ok2, "C03: after the data, reads report a clean end-of-stream, repeatedly");
     std::mem::forget(urx);
     std::mem::forget(rh);
+    kani::cover!(true, "end of harness reachable (assumptions satisfiable, no unconditional failure)");
 }
 }
 
@@ -374,6 +382,7 @@ fn rx_read_carry_over() {
     assert!(ok2 && out2[0] == p[2] && rh.current.is_none(), "C01: the remainder is delivered once, then the carry-over is cleared");
     std::mem::forget(urx);
     std::mem::forget(rh);
+    kani::cover!(true, "end of harness reachable (assumptions satisfiable, no unconditional failure)");
 }
 }
 
@@ -436,6 +445,7 @@ fn rx_read_data_then_error() {
     assert!(!rh.is_eof, "C03: an aborted connection never looks like a clean end-of-stream");
     std::mem::forget(urx);
     std::mem::forget(rh);
+    kani::cover!(true, "end of harness reachable (assumptions satisfiable, no unconditional failure)");
 }
 }
 
@@ -454,6 +464,7 @@ fn rx_reader_drop_wakes_dispatcher() {
     assert!(wakes(W_DISP) == 1, "C02: dropping the reader wakes the dispatcher");
     assert!(urx.is_reader_dropped() && urx.remaining_rx_window() == 0, "C04: no window is advertised for a dropped reader");
     std::mem::forget(urx);
+    kani::cover!(true, "end of harness reachable (assumptions satisfiable, no unconditional failure)");
 }
 }
 
@@ -478,6 +489,7 @@ fn rx_death_path_wakes_reader() {
     assert!(wakes(W_READER) == 2, "C03: closing is idempotent");
     std::mem::forget(urx);
     std::mem::forget(rh);
+    kani::cover!(true, "end of harness reachable (assumptions satisfiable, no unconditional failure)");
 }
 }
 
